@@ -137,6 +137,8 @@ def gen_fields(rng, n, need_display_idx, robust=False, allow_flaky=False):
 
 
 ROBUST = [False]
+SHARED_IDENTS = ["ÉcranTitre", "ÜberGross", "ÑandúÁgil", "Http2", "Ipv6Only", "Sha256Sum", "_reserved", "raw__mode", "trailing_",
+                 "snake_case_name", "BetaGamma", "Xy"]
 
 
 def pick_expr(v, k):
@@ -178,28 +180,50 @@ def generate(rng, seed, size):
     out.append("use strum_sim::c17::{Case, Flaky, Subject, VariantInfo};\n")
     out.append("use strum_sim::fmtsim::Pick;\n\n")
     cases = []
-    for ei in range(target):
+    header_len = len(out)
+    # the last two enums are systematic: no serialize_all, and every identifier of the per-style enums once more, named by
+    # the identifier alone (verbatim). One of them is moved in front of all other enums, one stays behind them: whatever an
+    # expansion remembers about `raw__mode` under some style must not reach an enum that has no style (or the reverse).
+    n_shared = 0 if minimal else 2
+    for ei in range(target + n_shared):
+        shared_enum = ei >= target
         ename = "D%d" % ei
+        block_start = len(out)
         out.append("// @case-begin %s\n" % ename)
         prefix = rng.choice(PREFIXES)
         nvar = rng.randint(1, 7)
+        if shared_enum:
+            prefix, nvar = None, len(SHARED_IDENTS)
         # serialize_all: only together with identifiers whose word splitting is unambiguous (casing.py)
         style = rng.choice(casing.STYLES) if (rng.random() < 0.3 and not minimal) else None
+        if shared_enum:
+            style = None
         # systematic part: the first enums cover every serialize_all style, each with a variant named by its
         # (non-ASCII) identifier alone
         forced_style = (not robust) and ei < len(casing.STYLES)
+        if robust and not minimal and ei < len(casing.STYLES):
+            style = casing.STYLES[ei]   # (the robust corpus: every style once, random identifiers)
         if forced_style:
             style = casing.STYLES[ei]
             nvar = max(nvar, 3)
         simple = list(casing.SIMPLE_IDENTS)
         rng.shuffle(simple)
         lifetime = rng.random() < 0.08 and not robust
+        import random as _r
+        shared_rng = _r.Random("c17-shared-idents-%d-%d" % (seed, ei))
         variants = []  # dicts
         for vi in range(nvar):
             kind = rng.choice(["unit", "tuple", "named", "tuple", "named"])
             ident = "V%d" % vi if rng.random() < 0.8 else rng.choice(["Alpha", "BetaGamma", "X1", "HTTPServer", "snake_name"]) + str(vi)
             if style is not None:
                 ident = simple.pop()
+            elif not minimal and shared_rng.random() < 0.2:
+                # the same identifiers also occur in enums WITHOUT serialize_all (where they are used verbatim):
+                # what one expansion computes for `raw__mode` must not leak into another enum's `raw__mode`
+                cand = [i for i in ["raw__mode", "_reserved", "snake_case_name", "Http2", "Sha256Sum", "trailing_", "BetaGamma",
+                                    "ÉcranTitre"] if i not in [x["ident"] for x in variants]]
+                if cand:
+                    ident = shared_rng.choice(cand)
             forced_braces = robust and ei < 9 and vi == 0
             if forced_braces:
                 # systematic part of the robust corpus: escaped braces in fixed names of every variant kind
@@ -213,11 +237,15 @@ def generate(rng, seed, size):
                 kind = "unit"
                 disabled = False
             disabled = rng.random() < 0.1 and vi > 0
+            if forced_braces or (forced_style and vi in (0, 1, 2)):
+                disabled = False  # the systematic variants are never disabled
+            if shared_enum:
+                kind, ident, disabled = "unit", SHARED_IDENTS[vi], False
             v = dict(ident=ident, kind=kind, disabled=disabled, attrs=[], fixed=None, literal=None, tys=[], fnames=[], ref=None)
             brace_name = ["{{literal}}", "a{{b", "}}x{{", "set{{}}", "{{", "}}", "{{0}}", "x{{y}}z", "{{{{"][ei % 9] if forced_braces else None
             if kind == "unit":
                 attrs, canon = gen_fixed_attrs(rng)
-                if forced_style and vi in (0, 1, 2):
+                if (forced_style and vi in (0, 1, 2)) or shared_enum:
                     attrs, canon = [], None
                 if forced_braces:
                     attrs, canon = ["#[strum(to_string = %s)]" % rs(brace_name)], brace_name
@@ -264,7 +292,7 @@ def generate(rng, seed, size):
             variants.append(v)
         # width and precision taken from OTHER fields of the variant (`{0:1$}`, `{x:w$.p$}`): format! binds them by
         # position or by name like any other argument (own PRNG stream: every other choice stays as it was)
-        if not robust and ei % 5 == 2 and not (11 <= ei < 16):
+        if not robust and ei % 5 == 2 and not (11 <= ei < 16) and not shared_enum:
             import random as _r
             wr = _r.Random("c17-widthargs-%d-%d" % (seed, ei))
             for _ in range(wr.randint(1, 2)):
@@ -299,7 +327,7 @@ def generate(rng, seed, size):
             # systematic: enums 11..15 have fixed names only and a prefix with braces in it
             # (an unmatched closing brace, or `{x}`, in the prefix is rejected by the macro: outside the domain)
             prefix = ["{", "{{x", "x{", "{{", "é{"][ei - 11]
-        elif not robust:
+        elif not robust and not shared_enum:
             r = rng.random()
             if r < 0.08 and not has_interp:
                 prefix = rng.choice(["{", "{{x", "x{"])
@@ -314,7 +342,7 @@ def generate(rng, seed, size):
         decl = "<'a>" if uses_lt else ""
         inst = "<'static>" if uses_lt else ""
         # a type parameter (never displayed: Display is derived without bounds) in a fixed-name variant
-        if not uses_lt and not robust and rng.random() < 0.12:
+        if not uses_lt and not robust and not shared_enum and rng.random() < 0.12:
             decl, inst = "<T>", "<u8>"
             gv = dict(ident="Gen%d" % len(variants), kind=rng.choice(["tuple", "named"]), disabled=False, attrs=[], fixed=None,
                       literal=None, tys=["T"], fnames=["gen_field"], ref=None)
@@ -408,6 +436,10 @@ def generate(rng, seed, size):
         cases.append('    Case { name: "%s", desc: %s, variants: VARIANTS_%s, make: make_%s },\n'
                      % (ename, rs(desc), ename.upper(), ename.lower()))
         out.append("// @case-end %s\n\n" % ename)
+        if ei == target:
+            block = out[block_start:]
+            del out[block_start:]
+            out[header_len:header_len] = block
     out.append("pub static CASES: &[Case] = &[\n")
     out.extend(cases)
     out.append("];\n")
